@@ -52,7 +52,7 @@ TRACE_RECORDS = []
 EXPECTED_SIGS = ('abort_lost_file', 'abort_lost_file_pop', 'abort_orphan_file', 'iter_not_atomic', 'uncommitted_removal_visible')
 OK_EXC = ('Timeout', 'KeyError', 'TypeError', 'IndexError', 'ValueError')
 WRITE_SQL = ('sql:INSERT', 'sql:UPDATE', 'sql:DELETE', 'sql:UPDATE-SETTINGS', 'sql:COMMIT', 'sql:ROLLBACK')
-RELEASING = ('set', 'setitem', 'add', 'delete', 'delitem', 'incr', 'decr', 'pop', 'pull', 'popleft', 'popitem', 'clear', 'append', 'appendleft',
+RELEASING = ('set', 'setitem', 'add', 'delete', 'delitem', 'incr', 'decr', 'pop', 'pull', 'popleft', 'popitem', 'clear',
              'setdefault', 'update', 'rotate', 'reverse', 'remove')
 POPPING = ('pop', 'pull', 'popleft', 'popitem', 'rotate')
 
@@ -219,7 +219,8 @@ def check_run(r, case, stats):
             stats['anomalies'] += res[1]
     if res is None:
         sig = 'block_not_atomic' if spans else 'not_linearizable'
-        multi = ('iter', 'items', 'reversed')       # lock-free multi-statement reads: finding iter_not_atomic of C05
+        # lock-free multi-statement reads: finding iter_not_atomic of C05 (Deque indexing = len + key scan + lookup)
+        multi = ('iter', 'items', 'reversed') + (('getitem', 'count') if kind == 'deque' else ())
         # reads of OTHER clients that hit a vanished value file while a block containing a file-releasing call was open
         def failed_open(evs):
             return any(e == 'file:open-read' and (i + 1 == len(evs) or evs[i + 1] != 'file:read') for i, e in enumerate(evs))
@@ -265,7 +266,8 @@ def classify(out, r, case, snap, spans):
     if not aborted or snap is None:
         return out
     sigs = set(s for s, _ in out)
-    if not sigs <= {'abort_changed_state', 'missing_file', 'unknown_file', 'size_drift', 'block_not_atomic', 'final_contents_unexplained', 'not_linearizable', 'iter_not_atomic'}:
+    if not sigs <= {'abort_changed_state', 'missing_file', 'unknown_file', 'size_drift', 'block_not_atomic', 'final_contents_unexplained', 'not_linearizable', 'iter_not_atomic',
+                    'uncommitted_removal_visible'}:
         return out
     body = [q['call'] for _, inner in aborted for q in inner if q['op'] not in concdrv.BLOCK_OPS]
     body_ops = [c['op'] for c in body]
